@@ -172,6 +172,8 @@ def run(chk, tier, seed, replay):
                 exp_u.add("Debug")
             elif "x" in GROUP_TEXT.get(a["form"], "") or "x" in [t for t in c["tokens"]]:
                 lit += "{%d:x}" % j
+                if a["form"] == "ident" and a["alias"]:
+                    exp_u.add("LowerHex")   # `{j}` referring to `b = x`: the argument is the bare identifier x
         item = (f"#[display({vlib.rust_str(lit)}, {c['_text']}, sentinel)] "
                 "struct S<T, U> { sentinel: T, x: U }")
         reqs.append({"key": str(i), "derive": "Display", "item": item, "tokens": False})
